@@ -186,6 +186,23 @@ func classify(c Case, x, y, w *big.Int, got, want []*big.Int) string {
 			if eqAll(alt, got) {
 				return "zeropad"
 			}
+			// both the zero extension and the inexact divider
+			if strings.HasPrefix(algo(c), "signed-goldschmidt") && len(got) == 1 {
+				sx, sy := sgnPad(c, x, y)
+				ay := sy.Abs(sy)
+				_ = sx
+				for k := int64(-3); k <= 3; k++ {
+					t := new(big.Int).Set(alt[0])
+					if c.B.Name == "idiv" {
+						t.Add(t, big.NewInt(k))
+					} else {
+						t.Add(t, new(big.Int).Mul(ay, big.NewInt(k)))
+					}
+					if modPow2(t, c.NZ).Cmp(got[0]) == 0 {
+						return "zeropad_approx"
+					}
+				}
+			}
 		}
 	}
 	if strings.Contains(c.B.Name, "div") || strings.Contains(c.B.Name, "mod") {
@@ -211,12 +228,19 @@ func classify(c Case, x, y, w *big.Int, got, want []*big.Int) string {
 				return "approx"
 			}
 		default:
-			// remainder off by a small multiple of the divisor (mod 2^nz)
-			for k := int64(-3); k <= 3; k++ {
-				t := new(big.Int).Mul(ay, big.NewInt(k))
-				t.Add(t, want[0])
-				if modPow2(t, c.NZ).Cmp(got[0]) == 0 {
-					return "approx"
+			// remainder off by a small multiple of the divisor; the divider
+			// works at the operand width n and zero-extends / truncates
+			w := c.NZ
+			if m < w {
+				w = m
+			}
+			if got[0].BitLen() <= m {
+				for k := int64(-3); k <= 3; k++ {
+					t := new(big.Int).Mul(ay, big.NewInt(k))
+					t.Add(t, want[0])
+					if modPow2(t, w).Cmp(modPow2(got[0], w)) == 0 {
+						return "approx"
+					}
 				}
 			}
 		}
